@@ -157,7 +157,8 @@ def variant(draw, base_spec, all_specs) -> tuple[str, str]:
     """Returns (kind, text) — a chart text related to ``base_spec``."""
     kind = draw(st.sampled_from(["res", "res", "sustain", "content", "invalid_forced", "invalid_nores",
                                  "invalid_header", "invalid_dup_tempo", "invalid_midway", "invalid_midway",
-                                 "song_dup", "song_dup", "song_perm", "same", "unrelated", "same_size", "same_size"]))
+                                 "song_dup", "song_dup", "song_perm", "same", "unrelated", "same_size", "same_size",
+                                 "twin_track", "twin_track", "twin_events"]))
     spec = copy.deepcopy(base_spec)
     if kind == "res":
         res = spec["res"]
@@ -184,6 +185,18 @@ def variant(draw, base_spec, all_specs) -> tuple[str, str]:
                                  for it in items]
         spec["events"] = [[e[0], e[1] + "!"] for e in spec["events"]]
         spec["song"] = [["Name", '"other"'], ["Offset", "5"], ["Player2", "rhythm"], ["Genre", '"pop"']]
+    elif kind in ("twin_track", "twin_events"):
+        # byte-identical lines that mean different things in different sections, spread over DIFFERENT charts:
+        # '  0 = E "phrase_start"' is a global text event in [Events] and a track event (word with quotes) in an
+        # instrument section
+        spec["fmt"] = 0
+        spec.pop("nl", None)
+        if kind == "twin_track":
+            h = next(iter(spec["tracks"]), "ExpertSingle")
+            spec["tracks"][h] = [[0, "E", '"phrase_start"'], [0, "E", '"solo"']] + list(spec["tracks"].get(h, []))
+            spec["events"] = [e for e in spec["events"] if e[1] not in ("phrase_start", "solo")]
+        else:
+            spec["events"] = [[0, "phrase_start"], [0, "solo"]] + list(spec["events"])
     elif kind == "same_size":
         # another chart whose text has exactly the same length (one lane digit changed)
         for h, items in spec["tracks"].items():
@@ -271,6 +284,10 @@ def drive_machine(ctx: Ctx) -> None:
                 self.base = dict(self.base, song=[["Name", '"n1"'], ["Artist", '"a1"'],
                                                   ["Resolution", str(self.base["res"])], ["Charter", '"c1"'],
                                                   ["Album", '"al1"']])
+            if len(self.base["events"]) % 2 == 0:
+                # canonical layout and two well-known one-word global events (see the twin_track variant)
+                self.base = dict(self.base, fmt=0, events=[[0, "phrase_start"], [0, "solo"]] + list(self.base["events"]))
+                self.base.pop("nl", None)
             self.case["texts"].append(S.render(self.base))
 
         @precondition(lambda self: len(self.case["texts"]) < 8)
